@@ -151,11 +151,13 @@ class Check(PropertyCheck):
                   "whole table + general lemmas): every historical version key reaches the current format in a strictly "
                   "version-increasing chain (the migrate loop terminates from every version value whatsoever), the current "
                   "version is a fixed point, unknown versions are rejected with 'please update' exactly for larger "
-                  "integers. The converters' field surgery is validated differentially: all shipped historical dumps, "
+                  "integers. The field surgery of the ten converters for integer formats 10..17, 19, 20 is modelled over the tnetstring value type of C36 (Model/C38_Conv.lean) and proved to write exactly the next version (conv_writes_next_version), to leave every top-level key outside a stated per-converter set untouched (conv_frame; request/id/type/error/intercepted never change: request_preserved; response only by 13->14), plus marked_migration, mode_dropped, proxy_mode_added, state_dropped, timestamp_created_from_request; each step of the real converters is compared byte for byte (re-encoded tnetstring) with the Lean converter. Whole-chain behaviour is validated differentially: all shipped historical dumps, "
                   "synthetic states downgraded by inverse converters to each version 10..20, current states, and unknown "
                   "future versions go through the real migrate_flow / FlowReader / FlowWriter.")
-    level_note = ("partial: the theorem covers the version chain and the loop; what each converter does to the fields is "
-                  "validated (goldens for shipped dumps, inverse-converter round trips for versions 10..20), not proved. "
+    level_note = ("partial: proved are the version chain, the loop and the per-converter field facts for formats 10..17, 19, 20 (11->12 "
+                  "only without websocket metadata; 13->14 timestamp repair only for integer timestamps); tuple-version converters, "
+                  "18->19 and the websocket branches of 11->12 are validated only (goldens for shipped dumps, inverse-converter "
+                  "round trips for versions 10..20). "
                   "trusted: Lean kernel, the AST-based translator (reads `data[\"version\"] = …` in each converter).")
     technique = "Lean 4 proof over a table regenerated from the source (decide +kernel + lemmas) + differential migration runs"
     rule = ("kinds: dump (each shipped dumpfile: load, validity, re-save/re-load equality, golden digest), current (random "
@@ -226,6 +228,13 @@ class Check(PropertyCheck):
                        "n": rng.randint(2, 10 ** 6)}
             elif r < 0.3:
                 yield {"kind": "current", "state": canon_in(st)}
+            elif r < 0.5:
+                # one converter step, compared field for field (bytes of the re-encoded state) with the Lean converter
+                v = rng.choice(CONV_MODELLED)
+                c = {"kind": "conv", "v": v, "state": canon_in(st), "tweak": rng.choice(CONV_TWEAKS.get(v, [None]) + [None])}
+                if c["tweak"] == "sni-bytes":
+                    c["sni_hex"] = bytes(rng.choice([0x61, 0x2e, 0x80, 0xff, 0xc3, 0xa9, 0x5c, 0x00]) for _ in range(rng.randint(0, 12))).hex()
+                yield c
             elif r < 0.9:
                 c = {"kind": "downgrade", "to": rng.randint(MIN_SYNTH, 20), "state": canon_in(st)}
                 if c["to"] <= 10 and rng.chance(0.5):
@@ -322,6 +331,15 @@ class Check(PropertyCheck):
             except Exception as e:
                 resave = f"{type(e).__name__}: {e}"[:160]
             return {"equal": not diff, "diff": diff[:6], "resave": resave}
+        if k == "conv":
+            old2, wire = self._conv_input(case)
+            try:
+                out = compat.converters[case["v"]](copy.deepcopy(old2))
+            except Exception as e:
+                return {"wire": wire.hex(), "out": None, "exc": f"{type(e).__name__}: {e}"[:120]}
+            return {"wire": wire.hex(), "out": tnetstring.dumps(out).hex(), "version": out.get("version"),
+                    "request_same": out.get("request") == old2.get("request"),
+                    "untouched_same": all(out.get(k_) == old2.get(k_) for k_ in ("id", "type", "error", "intercepted"))}
         if k == "future":
             v = case["version"]
             if (tuple(v)[:2] if isinstance(v, list) else v) in compat.converters or v == version.FLOW_FORMAT_VERSION:
@@ -340,6 +358,37 @@ class Check(PropertyCheck):
                 rr = "flowread"
             return {"migrate": r, "reader": rr}
         raise Skip()
+
+    def _conv_input(self, case):
+        """the state as format `v` stored it (inverse converters from a current state), as read back from its tnetstring"""
+        v = case["v"]
+        st = restrict_for(canon_out(case["state"]), v)
+        old = mflow.Flow.from_state(copy.deepcopy(st)).get_state()
+        for u in range(version.FLOW_FORMAT_VERSION, v, -1):
+            if u not in INVERSES: raise Skip()
+            INVERSES[u](old)
+        assert old["version"] == v
+        t = case.get("tweak")
+        if t == "sni-bytes":
+            old["client_conn"]["sni"] = bytes.fromhex(case["sni_hex"]); old["server_conn"]["sni"] = bytes.fromhex(case["sni_hex"])[::-1]
+        elif t == "sni-none":
+            old["client_conn"]["sni"] = None
+        elif t == "empty-lists":
+            old["client_conn"]["alpn_offers"] = None; old["server_conn"]["cipher_list"] = None
+        elif t == "marked-true": old["marked"] = True
+        elif t == "marked-false": old["marked"] = False
+        elif t == "ts-null":
+            if not old.get("response"): raise Skip()
+            old["request"]["timestamp_end"] = int(old["request"]["timestamp_end"] or 0)
+            old["response"]["timestamp_start"] = None
+        elif t == "no-request":
+            old.pop("request", None)
+        elif t == "quic":
+            old["client_conn"]["tls_version"] = "QUIC"
+        elif t == "quic-server":
+            old["server_conn"]["tls_version"] = "QUIC"
+        wire = tnetstring.dumps(old)
+        return tnetstring.loads(wire), wire
 
     # ---- oracle --------------------------------------------------------------------------------
     def oracle(self, case, obs):
@@ -370,6 +419,13 @@ class Check(PropertyCheck):
             if "error" in obs: fails.append(f"state downgraded to v{case['to']} does not load: {obs['error']}")
             elif not obs["equal"]: fails.append(f"state downgraded to v{case['to']} migrates to a different state: {obs['diff']}")
             elif obs.get("resave") != "ok": fails.append(f"flow migrated from v{case['to']} cannot be re-saved and re-loaded to the same state: {obs['resave']}")
+        elif k == "conv":
+            # the facts proved of the modelled converters (conv_writes_next_version, request_preserved), asked of the real ones
+            if obs["out"] is None: fails.append(f"converter {case['v']} raised on a state of its own format: {obs['exc']}")
+            else:
+                if obs["version"] != case["v"] + 1: fails.append(f"converter {case['v']} wrote version {obs['version']}")
+                if not obs["request_same"]: fails.append(f"converter {case['v']} changed the request")
+                if not obs["untouched_same"]: fails.append(f"converter {case['v']} changed id/type/error/intercepted")
         elif k == "future":
             # "Files from newer, unknown format versions are rejected with an explanatory error"
             v = case["version"]
@@ -387,6 +443,10 @@ class Check(PropertyCheck):
             return ["mig " + ("int %d" % v if isinstance(v, int) else "tup %d %d" % (v[0], v[1]))]
         if case["kind"] == "downgrade":
             return ["mig int %d" % case["to"], "steps int %d" % case["to"]]
+        if case["kind"] == "conv":
+            try: _, wire = self._conv_input(case)
+            except Skip: return None
+            return ["conv %d %s" % (case["v"], wire.hex() or "-")]
         if case["kind"] == "dump":
             return ["golden"]   # the golden digest table is the 'model' side for shipped dumps (not a Lean line)
         return None
@@ -394,6 +454,7 @@ class Check(PropertyCheck):
     def model_obs(self, case, replies):
         if case["kind"] == "future": return replies[0]
         if case["kind"] == "downgrade": return replies
+        if case["kind"] == "conv": return replies[0]
         if case["kind"] == "dump":
             g = self._golden().get(case["file"])
             return g if g is not None else "<no golden recorded>"
@@ -406,6 +467,8 @@ class Check(PropertyCheck):
             return "ok" if (known and obs["migrate"] == "ok") else {"update": "errUpdate", "unknown": "errUnknown", "ok": "ok"}[obs["migrate"]]
         if case["kind"] == "downgrade":
             return ["ok", str(version.FLOW_FORMAT_VERSION - case["to"])] if "error" not in obs else ["err", "?"]
+        if case["kind"] == "conv":
+            return "none" if obs["out"] is None else "ok " + obs["out"]
         if case["kind"] == "dump":
             return {"n": obs["n"], "types": obs["types"], "digest": obs["digest"]}
         return None
@@ -418,10 +481,12 @@ class Check(PropertyCheck):
         if case["kind"] == "dump": return ("dump", case["file"])
         if case["kind"] == "dumpmut": return ("dumpmut", case["file"], case["edit"], case["n"])
         if case["kind"] == "future": return ("future", str(case["version"]))
+        if case["kind"] == "conv": return ("conv", case["v"], case.get("tweak"), digest(case["state"]))
         return (case["kind"], case.get("to"), digest(case["state"]))
 
     def branches(self, case, obs):
         if case["kind"] == "dumpmut": return ["dumpmut:" + case["edit"]]
+        if case["kind"] == "conv": return ["conv:v%d" % case["v"], "conv-tweak:%s" % case.get("tweak")]
         return [case["kind"] + (":v%d" % case["to"] if case["kind"] == "downgrade" else "")]
 
     def describe(self, case, obs):
@@ -442,6 +507,9 @@ class Check(PropertyCheck):
                 yield {"kind": "future", "version": [a, b]}
 
 
+CONV_MODELLED = [10, 11, 12, 13, 14, 15, 16, 17, 19, 20]
+CONV_TWEAKS = {10: ["sni-bytes", "sni-bytes", "sni-none", "empty-lists"], 12: ["marked-true", "marked-false"], 13: ["ts-null", "ts-null"],
+               15: ["no-request"], 20: ["quic", "quic-server"]}
 DUMP_EDITS = ["error", "req_content", "resp_content", "status", "host", "port", "path", "req_header", "resp_reason"]
 
 
